@@ -116,11 +116,22 @@ func buildRep(t *tree.Node, scheme []repKind, depth int) interface{} {
 		var fields []reflect.StructField
 		var dataIdx []int
 		for i, k := range keys {
-			fields = append(fields,
-				reflect.StructField{Name: fmt.Sprintf("Ign%d", i), Type: reflect.TypeOf(0), Tag: `config:",ignore"`},
-			)
+			// (every other tag lists several options: a name, ignore and a merge policy; inline and a policy)
+			ignTag, inlTag := `config:",ignore"`, `config:",inline"`
 			if i%2 == 1 {
-				fields = append(fields, reflect.StructField{Name: fmt.Sprintf("Inl%d", i), Type: reflect.TypeOf(struct{}{}), Tag: `config:",inline"`})
+				ignTag, inlTag = fmt.Sprintf(`config:"secret%d,ignore,replace"`, i), `config:",inline,append"`
+			}
+			fields = append(fields,
+				reflect.StructField{Name: fmt.Sprintf("Ign%d", i), Type: reflect.TypeOf(0), Tag: reflect.StructTag(ignTag)},
+			)
+			if i == 0 {
+				fields = append(fields,
+					reflect.StructField{Name: "IgnM", Type: reflect.TypeOf(""), Tag: `config:"hidden,ignore,replace"`},
+					reflect.StructField{Name: "InlM", Type: reflect.TypeOf(struct{ Q int }{}), Tag: `config:",inline,ignore"`},
+				)
+			}
+			if i%2 == 1 || i == 0 {
+				fields = append(fields, reflect.StructField{Name: fmt.Sprintf("Inl%d", i), Type: reflect.TypeOf(struct{}{}), Tag: reflect.StructTag(inlTag)})
 			}
 			f := reflect.StructField{Name: "F" + strings.ToUpper(k), Type: tIface, Tag: reflect.StructTag(fmt.Sprintf(`config:"%s"`, k))}
 			if i%2 == 0 {
@@ -136,6 +147,10 @@ func buildRep(t *tree.Node, scheme []repKind, depth int) interface{} {
 		st := reflect.New(reflect.StructOf(fields)).Elem()
 		for i, k := range keys {
 			st.FieldByName(fmt.Sprintf("Ign%d", i)).SetInt(99)
+			if i == 0 {
+				st.FieldByName("IgnM").SetString("do not copy")
+				st.FieldByName("InlM").Field(0).SetInt(98)
+			}
 			if v := sub(t.D[k]); v != nil {
 				st.Field(dataIdx[i]).Set(reflect.ValueOf(v))
 			}
@@ -844,7 +859,7 @@ func init() {
 			if tier == "thorough" {
 				ts = cachedEnum(2, kAB, 2)
 			}
-			return []*core.Space{c05Reps(ts, schemes), c05Flatten(cachedEnum(2, kAB, 2)), c05Dups()}
+			return []*core.Space{c05Reps(ts, schemes), c05Flatten(cachedEnum(2, kAB, 2)), c05Dups(), c05Mixed()}
 		},
 	})
 }
